@@ -692,6 +692,24 @@ func genC18(c *Ctx) {
 		c18Emit(c, "near-"+tag, 1, c18Tok{tok: tok})
 	}
 
+	// a JSON object followed by anything that is not white space is not a JSON object: every suffix a
+	// streaming decoder, a "more data?" probe or a lenient scanner could overlook, in header and payload
+	for _, obj := range []string{`{"alg":"HS256","typ":"JWT"}`, `{}`, `{"sub":"x","exp":1700000000}`, "{\"alg\":\"none\"}\n"} {
+		for _, suf := range []string{"}", "]", " }", "\n]", "}}", "]]", ",", ":", "x", "{}", "[]", "null", "0", `""`, " \t\r\n}", "\x00", "/", "//c", "/**/", ";", "\n}\n", "=", ".", "\xef\xbb\xbf", "\u2028"} {
+			for k := 0; k < 2; k++ {
+				bad := c18Seg(r, []byte(obj+suf), r.Intn(4), false)
+				good := c18Seg(r, []byte(`{"alg":"none"}`), r.Intn(4), false)
+				var tok []byte
+				if k == 0 {
+					tok = c18Join(bad, good, []byte("AA"))
+				} else {
+					tok = c18Join(good, bad, []byte("AA"))
+				}
+				c18Emit(c, "near-trailing-data", 1, c18Tok{tok: tok})
+			}
+		}
+	}
+
 	// ---------------- malformed stream: not judged from the AST ----------------
 	nm := 500
 	if c.Thorough() {
